@@ -94,9 +94,21 @@ def gen_reference(rng):
                 row[g] = 0
             clusters[k] = others
         exact = rng.random() < 0.7
+    if rng.random() < 0.25 and ncl >= 2:
+        # a gene expressed in (nearly) every cell of two clusters but at very different levels: significant,
+        # large fold change, differential penetrance 1/6 - between the two values a floor can take
+        g = rng.randrange(ng)
+        lowc = [[rng.choice([0, 0, 0, 1, 1, 2]) for _ in range(ng)] for _ in range(6)]
+        highc = [[rng.choice([0, 0, 0, 1, 1, 2]) for _ in range(ng)] for _ in range(6)]
+        for i, row in enumerate(lowc):
+            row[g] = [1, 2, 1, 2, 1, 0][i]
+        for i, row in enumerate(highc):
+            row[g] = [5, 6, 5, 6, 5, 6][i]
+        clusters[0], clusters[1] = lowc, highc
+        T['q1min'], T['qdiffmin'] = rng.choice([((1, 10), (1, 5)), ((1, 4), (1, 10)), ((1, 10), (1, 10))])
     conf = {'T': T, 'exact': exact, 'n_valid': rng.choice([1, 2, 3, 5, 30]),
             'gene_list': sorted(rng.sample(range(ng), rng.randint(1, ng))) if rng.random() < 0.3 else None,
-            'P': rng.randint(1, 3), 'max_gb': rng.choice([1, 1e-3, 1e-7])}
+            'P': rng.randint(1, 3), 'max_gb': rng.choice([1, 1e-3, 1e-7]), 'pad_list': rng.random() < 0.5}
     two_level = rng.random() < 0.5
     return {'clusters': clusters, 'ng': ng, 'conf': conf, 'two_level': two_level}
 
@@ -204,6 +216,9 @@ def _run_routes(ref, names, d, P, max_gb, tag):
     stats = os.path.join(d, f'stats_{tag}.h5')
     genes = write_stats_full(stats, ref, names)
     gl = None if ref['conf']['gene_list'] is None else [genes[g] for g in ref['conf']['gene_list']]
+    if gl is not None and ref['conf'].get('pad_list'):
+        # a query panel: longer than the reference gene list, but covering only part of it
+        gl = gl + [f'panel_only_{i}' for i in range(len(genes) + 1)]
     out1 = os.path.join(d, f'refm_{tag}.h5')
     os.makedirs(os.path.join(d, 'scratch'), exist_ok=True)
     stages.ref_markers(stats, out1, os.path.join(d, 'scratch'), n_proc=P, max_gb=max_gb,
